@@ -40,6 +40,19 @@ func (s *S) m(a int) int {
 	return a + 400
 }
 
+//go:noinline
+func (s *S) m2(a int) int {
+	if a > 1<<55 {
+		return a*37 - s.K
+	}
+	return a + 450
+}
+
+// CallLowerM2 calls the second unexported method.
+//
+//go:noinline
+func CallLowerM2(s *S, a int) int { return s.m2(a) }
+
 // CallLowerM calls the unexported method.
 //
 //go:noinline
